@@ -288,6 +288,222 @@ func regexCoq(src string) (string, error) {
 	return reToCoq(re.Simplify())
 }
 
+// selName returns the last identifier of an expression like pkg.Name or Name.
+func selName(e ast.Expr) (string, bool) {
+	switch x := e.(type) {
+	case *ast.SelectorExpr:
+		return x.Sel.Name, true
+	case *ast.Ident:
+		return x.Name, true
+	}
+	return "", false
+}
+
+// identMap extracts a map literal `map[K]V{pkg.A: pkg.B, ...}` as pairs of identifier names, in source order.
+func (g *gcFile) identMap(name string) ([][2]string, error) {
+	v, ok := g.vars[name]
+	if !ok {
+		return nil, fmt.Errorf("gen-constants: variable %s not found", name)
+	}
+	cl, ok := v.(*ast.CompositeLit)
+	if !ok {
+		return nil, fmt.Errorf("gen-constants: %s is not a composite literal", name)
+	}
+	var out [][2]string
+	for _, e := range cl.Elts {
+		kv, ok := e.(*ast.KeyValueExpr)
+		if !ok {
+			return nil, fmt.Errorf("gen-constants: %s: element is not key: value", name)
+		}
+		k, ok1 := selName(kv.Key)
+		val, ok2 := selName(kv.Value)
+		if !ok1 || !ok2 {
+			return nil, fmt.Errorf("gen-constants: %s: key or value is not an identifier", name)
+		}
+		out = append(out, [2]string{k, val})
+	}
+	return out, nil
+}
+
+func (g *gcFile) funcBody(name string) (*ast.BlockStmt, error) {
+	for _, d := range g.f.Decls {
+		if fd, ok := d.(*ast.FuncDecl); ok && fd.Recv == nil && fd.Name.Name == name && fd.Body != nil {
+			return fd.Body, nil
+		}
+	}
+	return nil, fmt.Errorf("gen-constants: function %s not found", name)
+}
+
+// nestedSwitchTable reads a function of the shape
+//   switch k.Type { case T: switch k.Size { case N: return R, nil ... } ... }
+// as rows (T, N, R) of identifier names / integer literals, in source order.
+func (g *gcFile) nestedSwitchTable(fn string) ([][3]string, error) {
+	body, err := g.funcBody(fn)
+	if err != nil {
+		return nil, err
+	}
+	var outer *ast.SwitchStmt
+	for _, st := range body.List {
+		if sw, ok := st.(*ast.SwitchStmt); ok {
+			outer = sw
+			break
+		}
+	}
+	if outer == nil {
+		return nil, fmt.Errorf("gen-constants: %s: no switch", fn)
+	}
+	var rows [][3]string
+	for _, c := range outer.Body.List {
+		cc := c.(*ast.CaseClause)
+		if len(cc.List) != 1 {
+			return nil, fmt.Errorf("gen-constants: %s: outer case shape", fn)
+		}
+		t, ok := selName(cc.List[0])
+		if !ok {
+			return nil, fmt.Errorf("gen-constants: %s: outer case is not an identifier", fn)
+		}
+		if len(cc.Body) != 1 {
+			return nil, fmt.Errorf("gen-constants: %s: outer case body shape", fn)
+		}
+		inner, ok := cc.Body[0].(*ast.SwitchStmt)
+		if !ok {
+			return nil, fmt.Errorf("gen-constants: %s: inner statement is not a switch", fn)
+		}
+		for _, ic := range inner.Body.List {
+			icc := ic.(*ast.CaseClause)
+			if len(icc.List) != 1 || len(icc.Body) != 1 {
+				return nil, fmt.Errorf("gen-constants: %s: inner case shape", fn)
+			}
+			n, err := g.num(icc.List[0])
+			if err != nil {
+				return nil, err
+			}
+			ret, ok := icc.Body[0].(*ast.ReturnStmt)
+			if !ok || len(ret.Results) < 1 {
+				return nil, fmt.Errorf("gen-constants: %s: inner case does not return", fn)
+			}
+			r, ok := selName(ret.Results[0])
+			if !ok {
+				return nil, fmt.Errorf("gen-constants: %s: returned value is not an identifier", fn)
+			}
+			rows = append(rows, [3]string{t, strconv.FormatInt(n, 10), r})
+		}
+	}
+	return rows, nil
+}
+
+// assignSwitchTable reads DecodeKeySpec's shape
+//   switch k { case K: keySpec.Size = N; keySpec.Type = T ... default: ... }
+// as rows (K, N, T).
+func (g *gcFile) assignSwitchTable(fn string) ([][3]string, error) {
+	body, err := g.funcBody(fn)
+	if err != nil {
+		return nil, err
+	}
+	var sw *ast.SwitchStmt
+	for _, st := range body.List {
+		if x, ok := st.(*ast.SwitchStmt); ok {
+			sw = x
+			break
+		}
+	}
+	if sw == nil {
+		return nil, fmt.Errorf("gen-constants: %s: no switch", fn)
+	}
+	var rows [][3]string
+	for _, c := range sw.Body.List {
+		cc := c.(*ast.CaseClause)
+		if cc.List == nil {
+			continue // default
+		}
+		if len(cc.List) != 1 {
+			return nil, fmt.Errorf("gen-constants: %s: case shape", fn)
+		}
+		k, ok := selName(cc.List[0])
+		if !ok {
+			return nil, fmt.Errorf("gen-constants: %s: case is not an identifier", fn)
+		}
+		size, typ := "", ""
+		for _, st := range cc.Body {
+			as, ok := st.(*ast.AssignStmt)
+			if !ok || len(as.Lhs) != 1 || len(as.Rhs) != 1 {
+				return nil, fmt.Errorf("gen-constants: %s: statement in case %s is not a simple assignment", fn, k)
+			}
+			field, _ := selName(as.Lhs[0])
+			switch field {
+			case "Size":
+				n, err := g.num(as.Rhs[0])
+				if err != nil {
+					return nil, err
+				}
+				size = strconv.FormatInt(n, 10)
+			case "Type":
+				typ, _ = selName(as.Rhs[0])
+			default:
+				return nil, fmt.Errorf("gen-constants: %s: unexpected assignment to %s", fn, field)
+			}
+		}
+		if size == "" || typ == "" {
+			return nil, fmt.Errorf("gen-constants: %s: case %s does not set Size and Type", fn, k)
+		}
+		rows = append(rows, [3]string{k, size, typ})
+	}
+	return rows, nil
+}
+
+// millis evaluates a duration constant of the shape N * time.Unit (or time.Unit * N) in milliseconds.
+func (g *gcFile) millis(e ast.Expr) (int64, error) {
+	if id, ok := e.(*ast.Ident); ok {
+		if v, ok := g.consts[id.Name]; ok {
+			return g.millis(v)
+		}
+	}
+	be, ok := e.(*ast.BinaryExpr)
+	if !ok || be.Op != token.MUL {
+		return 0, fmt.Errorf("gen-constants: duration is not a product")
+	}
+	unit := func(x ast.Expr) (int64, bool) {
+		if s, ok := x.(*ast.SelectorExpr); ok {
+			if p, ok := s.X.(*ast.Ident); ok && p.Name == "time" {
+				switch s.Sel.Name {
+				case "Millisecond":
+					return 1, true
+				case "Second":
+					return 1000, true
+				case "Minute":
+					return 60000, true
+				}
+			}
+		}
+		return 0, false
+	}
+	if u, ok := unit(be.Y); ok {
+		n, err := g.num(be.X)
+		return n * u, err
+	}
+	if u, ok := unit(be.X); ok {
+		n, err := g.num(be.Y)
+		return n * u, err
+	}
+	return 0, fmt.Errorf("gen-constants: duration unit not recognised")
+}
+
+func cTriples(rows [][3]string) string {
+	var items []string
+	for _, r := range rows {
+		items = append(items, "("+CStr(r[0])+", "+r[1]+", "+CStr(r[2])+")")
+	}
+	return CList(items)
+}
+
+func cPairs(rows [][2]string) string {
+	var items []string
+	for _, r := range rows {
+		items = append(items, CPair(CStr(r[0]), CStr(r[1])))
+	}
+	return CList(items)
+}
+
 func runGenConstants(a *Args) error {
 	repo := a.Repo
 	var b strings.Builder
@@ -416,6 +632,89 @@ func runGenConstants(a *Args) error {
 		return err
 	}
 	fmt.Fprintf(&b, "Definition gen_verification_plugin_headers : list string := %s.\n", CStrList(hs))
+
+	// ---- second batch: constants and tables the models state literally ----
+	env, err := gcLoad(filepath.Join(repo, "internal/envelope/envelope.go"))
+	if err != nil {
+		return err
+	}
+	for _, c := range []struct{ c, n string }{{"MediaTypePayloadV1", "gen_media_type_payload_v1"}, {"AnnotationX509ChainThumbprint", "gen_annotation_x509_chain_thumbprint"}} {
+		v, err := env.str(&ast.Ident{Name: c.c})
+		if err != nil {
+			return fmt.Errorf("%s: %w", c.c, err)
+		}
+		fmt.Fprintf(&b, "Definition %s : string := %s.\n", c.n, CStr(v))
+	}
+	itp, err := gcLoad(filepath.Join(repo, "internal/trustpolicy/trustpolicy.go"))
+	if err != nil {
+		return err
+	}
+	for _, c := range []struct{ c, n string }{{"Wildcard", "gen_wildcard"}, {"X509Subject", "gen_x509_subject"}} {
+		v, err := itp.str(&ast.Ident{Name: c.c})
+		if err != nil {
+			return fmt.Errorf("%s: %w", c.c, err)
+		}
+		fmt.Fprintf(&b, "Definition %s : string := %s.\n", c.n, CStr(v))
+	}
+	blob, err := gcLoad(filepath.Join(repo, "verifier/trustpolicy/blob.go"))
+	if err != nil {
+		return err
+	}
+	ov, err := oci.strList("supportedOCIPolicyVersions")
+	if err != nil {
+		return err
+	}
+	bv, err := blob.strList("supportedBlobPolicyVersions")
+	if err != nil {
+		return err
+	}
+	fmt.Fprintf(&b, "Definition gen_supported_oci_policy_versions : list string := %s.\n", CStrList(ov))
+	fmt.Fprintf(&b, "Definition gen_supported_blob_policy_versions : list string := %s.\n", CStrList(bv))
+	wd, err := pl.millis(&ast.Ident{Name: "pluginWaitDelay"})
+	if err != nil {
+		return fmt.Errorf("pluginWaitDelay: %w", err)
+	}
+	fmt.Fprintf(&b, "Definition gen_plugin_wait_delay_ms : N := %d.\n", wd)
+	sp, err := gcLoad(filepath.Join(repo, "signer/plugin.go"))
+	if err != nil {
+		return err
+	}
+	vv, err := gcLoad(filepath.Join(repo, "verifier/verifier.go"))
+	if err != nil {
+		return err
+	}
+	sa, err := sp.identMap("algorithms")
+	if err != nil {
+		return fmt.Errorf("signer: %w", err)
+	}
+	va, err := vv.identMap("algorithms")
+	if err != nil {
+		return fmt.Errorf("verifier: %w", err)
+	}
+	fmt.Fprintf(&b, "(* crypto.Hash identifier -> digest.Algorithm identifier, signer/plugin.go and verifier/verifier.go *)\n")
+	fmt.Fprintf(&b, "Definition gen_signer_digest_algorithms : list (string * string) := %s.\n", cPairs(sa))
+	fmt.Fprintf(&b, "Definition gen_verifier_digest_algorithms : list (string * string) := %s.\n", cPairs(va))
+	alg, err := gcLoad(filepath.Join(repo, "plugin/proto/algorithm.go"))
+	if err != nil {
+		return err
+	}
+	enc, err := alg.nestedSwitchTable("EncodeKeySpec")
+	if err != nil {
+		return err
+	}
+	hsh, err := alg.nestedSwitchTable("HashAlgorithmFromKeySpec")
+	if err != nil {
+		return err
+	}
+	dec, err := alg.assignSwitchTable("DecodeKeySpec")
+	if err != nil {
+		return err
+	}
+	fmt.Fprintf(&b, "(* plugin/proto/algorithm.go: rows (key type identifier, size, result identifier) *)\n")
+	fmt.Fprintf(&b, "Definition gen_encode_key_spec : list (string * N * string) := %s.\n", cTriples(enc))
+	fmt.Fprintf(&b, "Definition gen_hash_from_key_spec : list (string * N * string) := %s.\n", cTriples(hsh))
+	fmt.Fprintf(&b, "(* DecodeKeySpec: rows (key spec identifier, size, key type identifier) *)\n")
+	fmt.Fprintf(&b, "Definition gen_decode_key_spec : list (string * N * string) := %s.\n", cTriples(dec))
 
 	out := a.Out
 	if out == "" {
